@@ -39,6 +39,11 @@ def gen_cases(tier, seed):
         r = random.Random(rng.randrange(1 << 30))
         cases.append({'scenario': ['deadline-sweep', 'stream-close'][i % 2], 'mode': 'async' if i % 4 == 3 else 'sync', 'workers': r.choice([1, 2]), 'victims': r.choice([1, 2]),
                       'witnesses': 1, 'rounds': 2, 'capacity': r.choice([1, 2, 8]), 'batch': 0, 'process': True, 'seed': r.randrange(1 << 30)})
+    # ... and with inputs far larger than the pipe holds, so that callers give up while their input still waits in front of the pipe
+    for i in range(6 if tier == 'quick' else 60):
+        r = random.Random(rng.randrange(1 << 30))
+        cases.append({'scenario': ['deadline-sweep', 'stream-close'][i % 2], 'mode': 'async' if i % 3 != 2 else 'sync', 'workers': 1, 'victims': r.choice([2, 4]),
+                      'witnesses': 1, 'rounds': 1, 'capacity': r.choice([8, 16]), 'batch': 0, 'process': True, 'pad': r.choice([100_000, 300_000]), 'seed': r.randrange(1 << 30)})
     # many requests abandoned at once and the server shut down (or used again) while their results are still on the way
     nm = [8, 33, 48, 100, 300]
     for i in range(10 if tier == 'quick' else 80):
@@ -53,8 +58,13 @@ def gen_cases(tier, seed):
     return cases
 
 
+_PAD = {'pad': None}
+
+
 def tok(client, s, sleep=SERVICE, fail=False):
     plan = [('A', 'sleep', sleep)]
+    if _PAD['pad']:
+        plan.append(('_', 'pad', _PAD['pad']))  # big inputs: accepted requests queue up in front of the pipe to the worker processes
     if fail:
         plan.append(('A', 'fail', None))
     return ('tok', client, s, tuple(plan))
@@ -358,6 +368,7 @@ def run_case(case):
         return _mass_abandon(case)
     if case['scenario'] == 'enqueue-timeouts':
         return _enqueue_timeouts(case)
+    _PAD['pad'] = 'x' * case['pad'] if case.get('pad') else None
     import mpservice.mpserver._server as SV
     import mpservice.streamer._streamer as S
     from mpservice._common import TimeoutError as MpTimeout
